@@ -1471,3 +1471,78 @@ func c06r8(c *RC) {
 	}
 	c.Floor("recover handlers that assign the error result", n, 3)
 }
+
+// C03-R9: a task goes back to TaskInit only from TaskLost.
+//
+// The evaluator re-elects a runner for a task by rewriting its state to
+// TaskInit.  That is legitimate for a *lost* task only: a task that failed
+// (TaskErr) must stay failed — re-running it executes the user's code twice
+// and lets a concurrent evaluation that shares the task return success where
+// the task reported an error — and a task that is waiting, running or done
+// must not be handed out again.  Every assignment of TaskInit to a task's
+// state is therefore guarded so that each of the other states certainly
+// excludes it (the guards are evaluated under state == k for every k other
+// than TaskLost, over the constants' values).  Seed C19-c1 relaxed the test
+// `state == TaskLost` to `state > TaskOk`.
+func c03r9(c *RC) {
+	pr := c.P
+	n := 0
+	lost, okL := pr.constVal("exec", "TaskLost")
+	maxS, okM := pr.constVal("exec", "TaskLost")
+	if !okL || !okM {
+		c.Undecide("exec.TaskLost not found")
+		return
+	}
+	for _, fn := range pr.FuncsIn("exec") {
+		if fn.Body == nil {
+			continue
+		}
+		fq := fn.Root().QName()
+		le := newLinEnv(pr, fn)
+		le.defs = map[types.Object]ast.Expr{}
+		norm := func(e ast.Expr) lin { return le.norm(e, 0) }
+		inspectNoLit(fn.Body, func(nd ast.Node) bool {
+			as, ok := nd.(*ast.AssignStmt)
+			if !ok || len(as.Lhs) != 1 || len(as.Rhs) != 1 {
+				return true
+			}
+			se, ok := as.Lhs[0].(*ast.SelectorExpr)
+			if !ok || pr.fieldQName(fn.Pkg.FieldOf(se)) != "exec.Task.state" {
+				return true
+			}
+			if v, isC := constInt(fn.Pkg, as.Rhs[0]); !isC || v != 0 {
+				return true
+			}
+			n++
+			gs := guardsAt(fn, as)
+			bad := int64(-1)
+			for k := int64(1); k <= maxS; k++ {
+				if k == lost {
+					continue
+				}
+				form := lin{le.atom(se): 1, "": int(-k)}
+				if !excludedBy(gs, clauseAtom(norm, form, "==", nil)) {
+					bad = k
+				}
+			}
+			c.Check(bad < 0, fq+"|reset-to-init-only-from-lost", pr.Pos(as.Pos()),
+				fmt.Sprintf("a task's state is rewritten to TaskInit on a path where it may be in state %d (not TaskLost): a failed task is re-run (the user's code executes twice and a concurrent evaluation sharing the task reports success where the task failed), or a task that is waiting, running or done is handed out again", bad))
+			return true
+		})
+	}
+	c.Floor("rewrites of a task's state to TaskInit", n, 1)
+}
+
+// constVal: the integer value of package-level constant name in the module
+// package rel.
+func (pr *Prog) constVal(rel, name string) (int64, bool) {
+	for _, fn := range pr.FuncsIn(rel) {
+		if k, ok := fn.Pkg.Types.Scope().Lookup(name).(*types.Const); ok {
+			if v, exact := constant.Int64Val(constant.ToInt(k.Val())); exact {
+				return v, true
+			}
+		}
+		break
+	}
+	return 0, false
+}
